@@ -19,6 +19,7 @@ EXPLANATION = (
     "node is created only in a full bucket without one. R4 (pending life cycle): the pending node is applied only past replace <= "
     "now, every eviction is nodes.remove(0) past !nodes[0].is_connected(), and update_status clears the pending slot when the "
     "node at position 0 becomes connected. R5: every path adding a connected incoming node is past !is_max_incoming().")
+EXPLANATION += (' Added while testing: R4 also requires every status report for a stored node to remove it from its position before re-inserting it (recency), and PendingNode.replace to be written only at construction as now + pending_timeout.')
 NOT_DECIDED = ["that disconnected nodes precede connected ones, each group ordered by last status change (first_connected_pos arithmetic over operation sequences; "
                "the crate's quickcheck test remains the only evidence for it)"]
 TRUSTED = ["arrayvec::ArrayVec panics rather than exceeding its capacity", "Vec indexing by BucketIndex"]
